@@ -169,7 +169,8 @@ def _tec(param):
 
 RECIPES = {
     "rnn": _rnn(1, ["Tanh", "Sigmoid"]), "gru": _rnn(3, ["Sigmoid", "Tanh"]), "lstm": _rnn(4, ["Sigmoid", "Tanh", "Relu"]),
-    "max_roi_pool": lambda param: {"in": {"X": ("float32", (1, 2, 8, 8)), "rois": ("float32", (3, 5))}, "attrs": {}, "items": [[2, 1]]},
+    "max_roi_pool": lambda param: {"in": {"X": ("float32", (1, 2, 8, 8)), "rois": ("float32", (3, 5))}, "attrs": {"pooled_shape": [2, 1]},
+                                   "items": {"pooled_shape": [[2, 1]]}},
     "label_encoder": _label_encoder,
     "scaler": _pair("scale", "offset", [0.5, 1.5, 0.1], [0.25, 2.5, 0.2], ("float32", (2, 3))),
     "category_mapper": _pair("cats_int64s", "cats_strings", [2, 1, 3], ["a", "ü", "b"], ("int64", (3,))),
@@ -181,7 +182,34 @@ RECIPES = {
     "center_crop_pad": lambda param: {"in": {"input_data": ("float32", (4, 4)), "shape": ("const", [2, 3])}, "attrs": {}, "items": [[1, 0]]},
     "col2_im": lambda param: {"in": {"input": ("float32", (1, 4, 4)), "image_shape": ("const", [3, 3]), "block_shape": ("const", [2, 2])},
                               "attrs": {}, "items": [[0, 0, 0, 0]] if param == "pads" else [[1, 1]]},
-    "resize": lambda param: {"in": {"X": ("float32", (1, 2, 4, 4)), "sizes": ("const", [8, 8])}, "attrs": {}, "items": [[3, 2], [2, 3]]},
+    "resize": lambda param: {"in": {"X": ("float32", (1, 2, 4, 4)), "sizes": ("const", [8, 8] if param == "axes" else [1, 2, 8, 8])}, "attrs": {},
+                             "items": {"axes": [[3, 2], [2, 3]], "mode": ["linear", "cubic", "nearest"],
+                                       "coordinate_transformation_mode": ["asymmetric", "align_corners", "half_pixel"],
+                                       "nearest_mode": ["floor", "ceil", "round_prefer_floor"],
+                                       "keep_aspect_ratio_policy": ["stretch"]}},
+    "batch_normalization": lambda param: {"in": {"X": ("float32", (2, 3, 4, 4)), "scale": ("float32", (3,)), "B": ("float32", (3,)),
+                                                 "input_mean": ("float32", (3,)), "input_var": ("float32", (3,))},
+                                          "attrs": {"training_mode": 1}},  # spox declares the three training outputs
+    "compress": lambda param: {"in": {"input": ("float32", (2, 3)), "condition": ("bool", (3,))}, "attrs": {}, "items": [1, 0]},
+    "einsum": lambda param: {"in": {"Inputs": ("float32", (3, 3))}, "attrs": {}, "items": ["ij->ji", "ii->i", "ij->ij"]},
+    "gemm": lambda param: {"in": {"A": ("float32", (2, 3)), "B": ("float32", (3, 4))}, "attrs": {}},
+    "grid_sample": lambda param: {"in": {"X": ("float32", (1, 2, 4, 4)), "grid": ("float32", (1, 3, 3, 2))}, "attrs": {},
+                                  "items": {"mode": ["nearest", "bilinear", "linear"], "padding_mode": ["border", "reflection", "zeros"]}},
+    "multinomial": lambda param: {"in": {"input": ("float32", (2, 3))}, "attrs": {}},
+    "negative_log_likelihood_loss": lambda param: {"in": {"input": ("float32", (2, 3)), "target": ("int64", (2,))}, "attrs": {},
+                                                   "items": {"reduction": ["sum", "none", "mean"], "ignore_index": [2, 1]}},
+    "one_hot": lambda param: {"in": {"indices": ("int64", (3,)), "depth": ("const", 4), "values": ("float32", (2,))}, "attrs": {}, "items": [0, 1, -1]},
+    "reverse_sequence": lambda param: {"in": {"input": ("float32", (3, 3, 4)), "sequence_lens": ("int64", (3,))},
+                                       "attrs": {"time_axis": 1, "batch_axis": 0}, "items": {"batch_axis": [0], "time_axis": [1]}},
+    "roi_align": lambda param: {"in": {"X": ("float32", (1, 2, 8, 8)), "rois": ("float32", (3, 4)), "batch_indices": ("int64", (3,))}, "attrs": {},
+                                "items": {"mode": ["max", "avg"], "coordinate_transformation_mode": ["output_half_pixel", "half_pixel"]}},
+    "split": lambda param: {"in": {"input": ("float32", (4, 3))}, "attrs": {"num_outputs": 2}, "items": {"axis": [0, 1], "num_outputs": [2]}},
+    "group_normalization": lambda param: {"in": {"X": ("float32", (1, 4, 2, 2)), "scale": ("float32", (4,)), "bias": ("float32", (4,))},
+                                          "attrs": {"num_groups": 2}, "items": {"num_groups": [2, 4, 1]}},
+    "affine_grid": lambda param: {"in": {"theta": ("float32", (1, 2, 3)), "size": ("const", [1, 1, 4, 4])}, "attrs": {}},
+    "imputer": lambda param: ({"in": {"X": ("int64", (2, 3))}, "attrs": {"imputed_value_int64s": [1]}} if "int64" in param
+                              else {"in": {"X": ("float32", (2, 3))}, "attrs": {"imputed_value_floats": [1.0]}}),
+    "one_hot_encoder": lambda param: {"in": {"X": ("int64", (3,))}, "attrs": {"cats_int64s": [1, 2]}},
 }
 
 
@@ -216,6 +244,8 @@ class Synth:
         for p in inspect.signature(fn).parameters.values():
             ann = str(p.annotation)
             if "Var" not in ann:
+                if p.name == "outputs_count" and p.default is inspect.Parameter.empty:
+                    kwargs[p.name] = 2  # a required plain-int parameter that is not an attribute (Split)
                 continue
             if p.name in given:
                 d, shp = given[p.name]
@@ -250,6 +280,9 @@ class Synth:
         if made is None:
             raise LookupError("no schema / no spox type for an input")
         fn, kwargs, args = made
+        if recipe is not None:  # recipe companions that this module's constructor does not have (Split.num_outputs)
+            names = inspect.signature(fn).parameters
+            attrs = {k: v for k, v in attrs.items() if k in names}
         res = fn(**kwargs, **attrs)
         outs = list(res) if isinstance(res, (tuple, list)) else [res]
         outs = [o for o in outs if o is not None][:1]
@@ -275,11 +308,24 @@ class Synth:
         res = op.scan([a, s], body=lambda st, x: [op.add(st, x), op.identity(x)], **kw)
         return list(res), [a, s]
 
-    @staticmethod
-    def build(outs, args):
-        import spox
+    def build(self, outs, args, mixed_with=None):
+        """mixed_with = id of a newer opset module: one of its nodes sits next to the node under test, so the whole
+        model is built at the newer opset version and the older node goes through spox's version adaptation."""
+        import numpy as np
 
-        return spox.build({f"in{i}": a for i, a in enumerate(args)}, {f"out{i}": o for i, o in enumerate(outs)}).SerializeToString()
+        import spox
+        from spox import Tensor, argument
+
+        ins = {f"in{i}": a for i, a in enumerate(args)}
+        res = {f"out{i}": o for i, o in enumerate(outs)}
+        if mixed_with is not None:
+            extra = argument(Tensor(np.float32, (2, 3)))
+            ins["mix_in"] = extra
+            if mixed_with == "ml_v5":  # the only operator defined at ai.onnx.ml version 5
+                res["mix_out"] = self.module(mixed_with).tree_ensemble(extra, **_tree_v5("")["attrs"])
+            else:
+                res["mix_out"] = self.module(mixed_with).identity(extra)
+        return spox.build(ins, res).SerializeToString()
 
     def required_attrs(self, row, rows_of_ctor):
         """candidate assignments of the required attributes of the constructor (the one under test is overwritten)"""
@@ -310,21 +356,25 @@ class Synth:
         outs, args = self.call(row["mod"], row, shape, alt, attrs, recipe)
         return find_attr(self.build(outs, args), row["opcls"].lstrip("_"), row["name"]) is not None
 
-    def find(self, row, rows_of_ctor, values):
-        """(shape, alt, other attrs, value, recipe) with which the plain call builds and shows the attribute."""
-        key = (row["mod"], row["ctor"], row["param"])
+    def find(self, row, rows_of_ctor, values, known_rank=False):
+        """(shape, alt, other attrs, value, recipe) with which the plain call builds and shows the attribute.
+        known_rank: inputs of known rank only (spox's version adaptation checks a singleton model in full)."""
+        key = (row["mod"], row["ctor"], row["param"]) + (("known",) if known_rank else ())
         if key in self.base:
             return self.base[key]
         found, last = None, None
         rec_fn = RECIPES.get(row["ctor"])
         if rec_fn is not None:
-            rec = rec_fn(row["param"])
+            rec = dict(rec_fn(row["param"]))
+            rec["attrs"] = {k: v for k, v in (rec.get("attrs") or {}).items() if k != row["param"]}
+            if isinstance(rec.get("items"), dict):  # per-parameter candidate values
+                rec["items"] = rec["items"].get(row["param"])
             combos = [(None, 0, dict(rec.get("attrs") or {}), rec)]
             values = (rec.get("items") or []) + list(values)
         else:
             ck = (row["mod"], row["ctor"])
-            combos = [(s, a, o, None) for o in self.required_attrs(row, rows_of_ctor) for s in SHAPES for a in (0, 1)]
-            if ck in self.ctor_base:  # what worked for a sibling attribute first
+            combos = [(s, a, o, None) for o in self.required_attrs(row, rows_of_ctor) for s in SHAPES[1 if known_rank else 0:] for a in (0, 1)]
+            if ck in self.ctor_base and not (known_rank and self.ctor_base[ck][0] is None):  # what worked for a sibling attribute first
                 combos = [self.ctor_base[ck]] + combos[:8]
         for vi, value in enumerate(values):
             for shape, alt, others, rec in (combos if vi == 0 else combos[:3]):
@@ -783,3 +833,87 @@ def run_tensor_case(synth: Synth, row, rows_of_ctor, way):
     if got != want:
         return ("capture" if mutated else "value", f"{desc}{' after the caller mutated its array' if mutated else ''}: embedded {got}, handed over {want}")
     return None
+
+
+# ------------------------------------------------------------------------ mixed-opset programs (version adaptation)
+NEWEST = {"": "v21", "ai.onnx.ml": "ml_v5"}
+
+
+def _literal_default(row):
+    import ast as _ast
+
+    d = row.get("default")
+    if d in (None, "None"):
+        return None
+    try:
+        return _ast.literal_eval(d)
+    except Exception:  # noqa: BLE001
+        return None
+
+
+def run_mixed_case(synth: Synth, row, rows_of_ctor, which):
+    """The node comes from an OLDER opset module and sits next to a node of the newest module, so `spox.build` adapts it
+    to the newer opset.  The attribute given at the call - equal to the ONNX schema default (`which == "default"`) or not
+    (`"other"`) - must still be in the BUILT node under its ONNX name with its exact value, whenever the operator keeps
+    an attribute of that name in the target opset."""
+    import numpy as np
+
+    mid = row["mod"]
+    _, domain, version = MODULES[mid]
+    newest = NEWEST[domain]
+    if mid == newest or row["cls"] not in LIST_KIND and row["cls"] not in SCALAR_KIND and row["cls"] != "AttrDtype":
+        return ("skip", "way not applicable")
+    opname = row["opcls"].lstrip("_")
+    target = _schema(opname, domain, MODULES[newest][2])
+    if target is None or row["name"] not in target.attributes:
+        return ("skip", "way not applicable")  # the operator has no attribute of that name in the target opset
+    if row["cls"] in LIST_KIND:
+        kind, cands = LIST_KIND[row["cls"]], LIST_ITEMS[LIST_KIND[row["cls"]]]
+    elif row["cls"] == "AttrDtype":
+        kind, cands = "dtype", [np.dtype(d).type for d in DTYPE_CANDS]
+    else:
+        kind = SCALAR_KIND[row["cls"]]
+        dv = _literal_default(row)
+        cands = [c for c in SCALARS[kind] if c != dv] + ([dv] if dv is not None else [])
+    base = synth.find(row, rows_of_ctor, cands, known_rank=True)
+    if base is None:
+        return ("skip", "way not applicable")
+    shape, alt, others, v, rec = base
+    if which == "default":
+        v = _literal_default(row)
+        if v is None or kind in ("dtype",) or isinstance(v, (list, tuple)):
+            return ("skip", "way not applicable")
+    desc = f"{mid}.{row['ctor']}({row['param']}={v!r}) next to a {newest} node"
+    try:
+        outs, args = synth.call(mid, row, shape, alt, {**others, row["param"]: v}, rec)
+        plain = find_attr(synth.build(outs, args), opname, row["name"])
+    except Exception:  # noqa: BLE001  (this value does not build on its own: nothing to compare)
+        return ("skip", "way not applicable")
+    if plain is None:
+        return ("skip", "way not applicable")
+    try:
+        a = find_attr(synth.build(outs, args, mixed_with=newest), opname, row["name"])
+        g = W.graph_parts(W.graph_of_model(synth.build(outs, args, mixed_with=newest)))
+    except Exception as e:  # noqa: BLE001  the adaptation itself fails: not a statement about the attribute (C10 judges built models)
+        return ("skip", f"mixed build raises {type(e).__name__}")
+    if not any(n["op_type"] == opname for n in g["nodes"]):
+        return ("skip", "way not applicable")  # the converter replaced the operator
+    if a is None:
+        return ("missing", f"{desc}: attribute {row['name']!r} is not in the built {opname} node (alone, the node has it)")
+    if kind in ("ints", "floats", "strings"):
+        bad = judge_list(a, kind, row["name"], list(v), list(v))
+        return None if bad is None else (bad[0], f"{desc}: {bad[1]}")
+    if kind == "dtype":
+        want, got, ty = W.ONNX_ENUM[np.dtype(v).name], a["i"], W.ATTR_TYPE["INT"]
+    else:
+        want = {"int": lambda: int(v), "float": lambda: f32_bits(float(v)), "string": lambda: v.encode("utf-8")}[kind]()
+        got, ty = {"int": a["i"], "float": a["f"], "string": a["s"]}[kind], ATYPE[kind]
+    if kind == "string" and RENAMED_VALUES.get((opname, row["name"]), {}).get(v) == got.decode("utf-8", "replace"):
+        return None  # the ONNX version converter's documented renaming of an enumeration value
+    if a["type"] != ty or got != want:
+        return ("value", f"{desc}: embedded ({a['type']}, {got!r}), expected ({ty}, {want!r})")
+    return None
+
+
+# enumeration values the ONNX specification renamed between opset versions (GridSample-20)
+RENAMED_VALUES = {("GridSample", "mode"): {"bilinear": "linear", "bicubic": "cubic"}}
